@@ -19,6 +19,7 @@ import (
 	"context"
 	"fmt"
 	"io"
+	"math"
 	"net"
 	"time"
 
@@ -242,8 +243,12 @@ func (u *PacketUnderlay) RunEventLoop(ctx context.Context) error {
 							baseStruct: baseStruct{
 								protocol: uint8(closeSessionRequest),
 							},
-							sessionID:  das.sessionID,
-							seq:        das.unAckSeq,
+							sessionID: das.sessionID,
+							// The session is gone, so it is unknown how many segments it
+							// had sent. Echoing the peer's own unAckSeq would claim that
+							// the peer has received everything, and turn a lost close
+							// request into a clean end of stream after a partial transfer.
+							seq:        math.MaxUint32,
 							statusCode: 0,
 							payloadLen: 0,
 						},
